@@ -245,7 +245,13 @@ def main():
     lines = []
     nviol = 0
     known_seen = []
+    env_broken = any(r.startswith('environment:') for r in inconclusive)
+    if env_broken and merged['violations']:
+        # nothing observed in a broken sandbox is believed, in either direction
+        inconclusive.append('observations discarded because of the broken environment: ' + ', '.join(sorted(merged['violations']))[:600])
     for mech, v in sorted(merged['violations'].items()):
+        if env_broken:
+            continue
         if mech in known:
             known_seen.append(mech)
             lines.append(f'KNOWN-FINDING: property={args.id} {known[mech]["what"]} [mechanism={mech}; observed {v["count"]}x]')
